@@ -206,7 +206,7 @@ def sql_level(rep, scratch, rng, tier, dss, counts):
     qph = core.enc_str(b"^ ^ a = $1")
     for n in (4, 16):
         body = []
-        for rnd in range(8):        # a fresh cache every round: the first use is where several goroutines miss and store the same key
+        for rnd in range(40):       # a fresh cache every round: the first use is where several goroutines miss and store the same key
             body += ["SQLOPEN d%d fa lrucache=true&lrucachesize=100000 %d" % (rnd, n), "SQLCONC c%d d%d %d %s" % (rnd, rnd, n, qnn),
                      "SQLQ s%d d%d direct %s 1" % (rnd, rnd, qnn), "ARGS 0", "SQLCLOSE d%d" % rnd]
         scen.append(("concurrent-cached-operators-%d" % n, body + ["SQLPROBE p1 fa"]))
